@@ -31,7 +31,7 @@ TOW = [("west_mast", 50.001, 10.002, 5.0), ("hill_top", 50, 10.0005, 7), ("east_
 
 
 def lattice(tier):
-    for nt, ns, threed, vc, dt, ts, forcing in itertools.product((1, 2, 3, 4), (1, 2, 3, 4), (False, True), ("index", "negative", "denormal", "huge"), ("float64", "float32"), ("iso", "index"), ("ustar", "z0-list", "z0-scalar")):
+    for nt, ns, threed, vc, dt, ts, forcing in itertools.product((1, 2, 3, 4), (1, 2, 3, 4), (False, True), ("index", "negative", "denormal", "huge"), ("float64", "float32"), ("iso", "index", "width"), ("ustar", "z0-list", "z0-scalar")):
         if forcing == "z0-scalar" and ns != 1:
             continue
         if tier == "quick" and vc != "index" and not (nt in (1, 3) and ns in (1, 2)):
@@ -58,6 +58,9 @@ def build(case):
         met["mol"] = [-50 - 3 * i for i in range(ns)]
     if case["ts"] == "iso":
         met["timestamps"] = ["2024-03-%02dT06:30" % (i + 1) for i in range(ns)]
+    elif case["ts"] == "width":
+        # labels of different printed widths, narrowest first (integers crossing a power of ten, mixed date / date-time strings)
+        met["timestamps"] = ([8, 9, 10, 11] if case["nt"] % 2 else ["9:30", "10:00", "2024-03-01", "2024-03-01T10:00"])[:ns]
     cfg = parse_config_dict({
         "domain": {"nx": NX, "ny": NY, "xmax": 50.0, "ymax": 45.0, "nz": 4, "ref_lat": 50.0, "ref_lon": 10.0},
         "towers": [{"name": n, "lat": la, "lon": lo, "z_m": z} for n, la, lo, z in TOW[:nt]],
@@ -101,6 +104,18 @@ def verify(cfg, res, x, y, zl, threed, path, lab):
         v.append({"sub": sub, "sig": sub, "msg": "%s; %s" % (msg, lab)})
 
     save_footprints_to_netcdf(res, cfg, path)
+    # a first reader post-processes what it loaded IN PLACE (normalises footprints, converts units) and closes it;
+    # the file is untouched, so the next load must still return what was saved
+    try:
+        ds0 = load_footprints_from_netcdf(path)
+        try:
+            ds0 = ds0.load()
+            for nm in ("footprint", "concentration", "ustar", "wind_dir"):
+                ds0[nm].values[...] = ds0[nm].values * 0.0 + 123.0
+        finally:
+            ds0.close()
+    except Exception as e:
+        bad("structure", "first load failed: %s: %s" % (type(e).__name__, str(e)[:100]))
     ds = load_footprints_from_netcdf(path)
     try:
         _compare_loaded(ds, cfg, res, x, y, zl, threed, bad)
